@@ -229,7 +229,8 @@ int KSI_TlvElement_serialize(const KSI_TlvElement *element, unsigned char *buf, 
 		goto cleanup;
 	}
 
-	if (element->subList == NULL || KSI_TlvElementList_length(element->subList) == 0) {
+	/* An element whose children have been expanded is made of its children only (possibly none). */
+	if (element->subList == NULL) {
 		dat_len = element->ftlv.dat_len;
 
 		if (buf != NULL) {
